@@ -3,13 +3,15 @@ objects, under a cooperative scheduler that owns every switch, up to a preemptio
 (CHESS-style iterative context bounding).  DESIGN 3.6.
 
 * each thread installs a ``sys.settrace`` function; at every ``line`` event inside
-  ``valida/*.py`` (or only at "write-ish" lines, see ``write_points``) it reaches a scheduling
+  ``valida/*.py`` (or only at "write-ish" lines and the line following each, see ``write_points``) it reaches a scheduling
   point and hands a baton (per-thread semaphore) to whichever thread the schedule names;
   exactly one thread runs at a time, so a schedule (list of choices) is replayable;
 * a choice is an index into the enabled threads in canonical order (running thread first, then
   ascending ids); choice 0 everywhere = run each thread to completion in turn;
 * switching away from a thread that could continue is a preemption; executions always run to
   completion; exploration covers every schedule with <= bound preemptions;
+* every execution runs in a freshly forked process (the library's pristine module state), so races on
+  first-use initialisation of module-level state are explored in every schedule;
 * determinism is proven per run by executing one schedule twice (identical point sequences and
   observations); a divergence while replaying a prefix is a hard harness error.
 """
@@ -124,10 +126,15 @@ class Scheduler:
     def make_tracer(self, tid):
         flt = self.filter
 
+        after_write = [False]
+
         def local(frame, event, arg):
             if event == "line":
                 key = (frame.f_code.co_filename, frame.f_lineno)
-                if flt is None or key in flt:
+                # a scheduling point before every write-ish line and at the line that follows one (so that the
+                # other thread can run in the window between a write and what this thread does next)
+                if flt is None or key in flt or after_write[0]:
+                    after_write[0] = flt is not None and key in flt
                     self.yield_point(tid, (tid,) + key)
             return local
 
@@ -181,21 +188,42 @@ class Scheduler:
         return self.x
 
 
-def run_schedule(make_bodies, prefix, point_filter=None):
-    """make_bodies() -> (bodies, finish) builds a *fresh* world per execution; finish() returns
-    what must be compared besides the threads' own results (e.g. the world's snapshot)."""
+def _run_schedule_here(make_bodies, prefix, point_filter):
     bodies, finish = make_bodies()
     x = Scheduler(bodies, prefix, point_filter).run()
     x.world = finish()
     return x
 
 
-def explore(make_bodies, bound, check, point_filter=None, top_range=None, stats=None):
+class _Plain:
+    pass
+
+
+def _run_schedule_packed(make_bodies, prefix, point_filter):
+    x = _run_schedule_here(make_bodies, prefix, point_filter)
+    return (x.points, x.choices, x.trace, x.obs, x.preemptions, x.world)
+
+
+def run_schedule(make_bodies, prefix, point_filter=None, pristine=False):
+    """make_bodies() -> (bodies, finish) builds a *fresh* world per execution; finish() returns
+    what must be compared besides the threads' own results (e.g. the world's snapshot).
+    pristine=True: the execution runs in a freshly forked process, i.e. from the library's initial
+    module state (first-use initialisation races are then explored in every schedule, not only in
+    the first execution of the process)."""
+    if not pristine:
+        return _run_schedule_here(make_bodies, prefix, point_filter)
+    from mc.fresh import run_fresh
+    x = _Plain()
+    x.points, x.choices, x.trace, x.obs, x.preemptions, x.world = run_fresh(_run_schedule_packed, make_bodies, prefix, point_filter)
+    return x
+
+
+def explore(make_bodies, bound, check, point_filter=None, top_range=None, stats=None, pristine=False):
     """Every schedule with <= bound preemptions.  `check(x)` judges one execution.
     top_range=(lo, hi): restrict the first deviation from the default schedule to points lo..hi-1
     (used to shard the exploration over processes; the default schedule belongs to the shard with lo == 0)."""
     def rec(prefix, depth, lo, hi):
-        x = run_schedule(make_bodies, prefix, point_filter)
+        x = run_schedule(make_bodies, prefix, point_filter, pristine)
         if stats is not None:
             stats["schedules"] = stats.get("schedules", 0) + 1
             stats["points"] = stats.get("points", 0) + len(x.points)
@@ -239,9 +267,10 @@ HARNESSES = {
     "get-vs-filter-vs-validate": ([("get part paths", 0), ("filter a&b", 1)], [("part.filter", 0), ("validate path", 2)]),
     "rule-twice-vs-validate": ([("test r1", 0), ("test r1", 0)], [("validate cast", 0)]),
     "two-filters": ([("filter a&b", 0)], [("filter a&b", 0)]),
+    "part-combinations": ([("part.filter", 0), ("part2.filter", 1)], [("part2.filter", 0), ("part.filter", 1)]),
     "same-rule-twice": ([("test r1", 0)], [("test r1", 0)]),
 }
-BOUND2 = ("get-vs-filter-vs-validate", "two-filters", "same-rule-twice")
+BOUND2 = ("get-vs-filter-vs-validate", "two-filters", "same-rule-twice", "part-combinations")
 
 
 def _op_index(name, di):
@@ -271,7 +300,9 @@ def make_harness(hname):
             return snap(roots) == init
         return [body(ops[0]), body(ops[1])], finish
 
-    expected = [[c08.expected(oi) for oi in seq] for seq in ops]
+    # (computed in a pristine child too, so that this process itself never runs code under test)
+    from mc.fresh import run_fresh
+    expected = run_fresh(lambda: [[c08.expected(oi) for oi in seq] for seq in ops])
     return make_bodies, expected, ops
 
 
@@ -296,7 +327,7 @@ def run_unit(res, unit, tier):
     _, hname, bound, pts, k, nshards = unit
     flt = write_points() if pts == "write" else None
     make_bodies, expected, ops = make_harness(hname)
-    x0 = run_schedule(make_bodies, [], flt)
+    x0 = run_schedule(make_bodies, [], flt, pristine=True)
     n = len(x0.points)
     lo, hi = (n * k) // nshards, (n * (k + 1)) // nshards
     stats = {}
@@ -322,7 +353,7 @@ def run_unit(res, unit, tier):
             res.count("nontrivial")
         return True
 
-    explore(make_bodies, bound, check, flt, top_range=(lo, hi), stats=stats)
+    explore(make_bodies, bound, check, flt, top_range=(lo, hi), stats=stats, pristine=True)
     res.states.add(hash(("S", hname, "world-unchanged")))
     for o in outcomes:
         res.outcome(o)
@@ -343,11 +374,11 @@ def determinism(res):
     """Replay one schedule with a preemption twice: identical point sequences and observations."""
     for hname in HARNESSES:
         make_bodies, expected, ops = make_harness(hname)
-        x0 = run_schedule(make_bodies, [], write_points())
+        x0 = run_schedule(make_bodies, [], write_points(), pristine=True)
         first_len = next(i for i, t in enumerate(x0.trace) if t[1] == "<end>")   # thread 0 ends here in the default schedule
         mid = [0] * (first_len // 2) + [1]                                           # preempt thread 0 half-way
-        a = run_schedule(make_bodies, mid, write_points())
-        b = run_schedule(make_bodies, mid, write_points())
+        a = run_schedule(make_bodies, mid, write_points(), pristine=True)
+        b = run_schedule(make_bodies, mid, write_points(), pristine=True)
         res.count("evaluations", 2)
         res.count("transitions", len(a.points) + len(b.points))
         if a.trace != b.trace or repr(a.obs) != repr(b.obs) or a.choices != b.choices:
@@ -358,7 +389,7 @@ def determinism(res):
 def replay(res, case):
     make_bodies, expected, ops = make_harness(case["harness"])
     flt = write_points() if case.get("points") == "write" else None
-    x = run_schedule(make_bodies, case["schedule"], flt)
+    x = run_schedule(make_bodies, case["schedule"], flt, pristine=True)
     got = [list(r[1]) if r and r[0] == "ok" else r for r in x.obs]
     for tid in (0, 1):
         if got[tid] != expected[tid]:
